@@ -14,7 +14,7 @@ PROPS = {
         'design_ref': 'DESIGN.md section 7.6',
     },
     'C01': {
-        'families': ['contracts.rebuild', 'contracts.dbstate', 'contracts.native'],
+        'families': ['contracts.rebuild', 'contracts.dbstate', 'contracts.optfold', 'contracts.native'],
         'level': 'proof',
         'technique': 'contract-based deductive verification of the rebuild plan and column clauses; bounded native stand-in for the schema comparison',
         'text': 'Deductive: column set/order and copy plan of a rebuilt table (to_sql prefix) and build_column_schema flag contract '
